@@ -1,5 +1,6 @@
 import Pdpy11.Driver.Proto
 import Pdpy11.Driver.Rad50
+import Pdpy11.Driver.Bk
 namespace Pdpy11.Driver
 
 def handle (line : String) : String :=
@@ -10,6 +11,8 @@ def handle (line : String) : String :=
     | "rad50" => handleRad50 args
     | "caretr" => handleCaretR args
     | "r50dec" => handleR50Dec args
+    | "bkenc" => handleBkEnc args
+    | "bkdec" => handleBkDec args
     | "ping" => "pong"
     | _ => "bad-op"
 
